@@ -57,6 +57,46 @@ def handle (cmd : String) (j : J) : Except String J :=
       let (ps, comp) := slicePositions v f
       pure (J.obj [("spans", J.arr (f.spans.map mspanJ)), ("reversed", J.bool f.reversed),
                    ("pos", J.arr (ps.map J.num)), ("comp", J.bool comp)])
+  | "makefeature" => do
+    -- `Sequence.make_feature` called directly (user-facing) with view-relative spans, well-formed or not
+    let L ← (← j.get "L").toInt
+    let rced ← (← j.get "rced").toBool
+    let minus ← (← j.get "minus").toBool
+    let spans ← parseSpans (← j.get "spans")
+    match makeFeature L rced minus spans with
+    | .error e => pure (errJ e)
+    | .ok f => pure (J.obj [("spans", J.arr (f.spans.map mspanJ)), ("reversed", J.bool f.reversed)])
+  | "cliplocate" => do
+    -- the per-span composite `span_on_view` is stated about (defined here as in Proofs/FeatureView.lean,
+    -- which the driver cannot import): `clipSpan` then `locate`
+    let L ← (← j.get "L").toInt
+    let sp ← J.toPairOf J.toInt J.toInt (← j.get "span")
+    match (match clipSpan L sp with | none => Except.ok [] | some c => locate L c) with
+    | .error e => pure (errJ e)
+    | .ok m => pure (J.arr (m.map mspanJ))
+  | "history" => do
+    -- `feature_after_history` end to end: C01's Sequence wrapper (`ofString` at an annotation offset), a history of
+    -- slices / rc through `SeqWrap.runOps`, then `get_features` + `get_slice` on the resulting view
+    let parent ← (← j.get "parent").toStr
+    let offset ← (← j.get "offset").toInt
+    let ops ← (← (← j.get "ops").toList).mapM fun op => do
+      match ← op.toList with
+      | [J.str "s", a, b, c] => pure (SeqWrap.SOp.slice (← a.toOptInt) (← b.toOptInt) (← c.toOptInt))
+      | [J.str "rc"] => pure SeqWrap.SOp.rc
+      | _ => throw "bad op"
+    let comp : Char → Char := fun c =>
+      if c = 'A' then 'T' else if c = 'T' then 'A' else if c = 'C' then 'G' else if c = 'G' then 'C' else c
+    let s0 := SeqWrap.ofString parent.toList true
+    let s0 : SeqWrap.Seq := { s0 with v := { s0.v with offset := offset } }
+    match SeqWrap.runOps s0 ops with
+    | .error _ => pure (J.obj [("err", J.str "history")])
+    | .ok s =>
+      let vj := J.obj [("start", J.num s.v.start), ("stop", J.num s.v.stop), ("step", J.num s.v.step),
+                       ("offset", J.num s.v.offset), ("seq_len", J.num s.v.seqLen)]
+      let sl := match featureOnView s.v (← (← j.get "minus").toBool) (← parseSpans (← j.get "spans")) with
+        | .error e => errJ e
+        | .ok f => J.str (String.ofList (getSlice comp s f))
+      pure (J.obj [("view", vj), ("str", J.str (String.ofList (SeqWrap.str comp s))), ("slice", sl)])
   | "getslice" => do
     -- residue-level model: `feature.get_slice()` on a DNA sequence wrapper
     let v ← parseView (← j.get "view")
